@@ -38,6 +38,142 @@ func runC01(c *Ctx) {
 	c.checkHashWhatYouStored()
 	c.checkRemarshalStored()
 	c.checkBlockComponentBytes()
+	c.checkHashCacheReset()
+}
+
+// checkHashCacheReset: a type that caches its hash (a pointer field named hash, possibly inside an embedded struct)
+// and decodes itself must drop the cached value whenever it takes new bytes: every successful UnmarshalCBOR either
+// assigns the whole receiver (*h = T(tmp)) or clears the hash field. Otherwise decoding into a value that was already
+// hashed leaves Hash() answering for the previous bytes while Cbor() returns the new ones.
+func (c *Ctx) checkHashCacheReset() {
+	// the caches in scope: hash fields that an identifier method (Hash, Id) of the declaring type answers from
+	idCache := map[string]bool{}
+	for _, p := range c.W.Pkgs {
+		rel := relPkg(p.PkgPath)
+		if !strings.HasPrefix(rel, "ledger") {
+			continue
+		}
+		for _, fn := range c.pkgFuncs(rel) {
+			if fn.Parent() != nil || fn.Signature.Recv() == nil || (fn.Name() != "Hash" && fn.Name() != "Id") {
+				continue
+			}
+			for _, in := range fnInstrs(fn) {
+				if fa, ok := in.(*ssa.FieldAddr); ok && fieldName(fa.X.Type(), fa.Field) == "hash" {
+					idCache[strings.TrimPrefix(typeStr(fa.X.Type()), "*")] = true
+				}
+			}
+		}
+	}
+	var hasCache func(t types.Type, d int) bool
+	hasCache = func(t types.Type, d int) bool {
+		st, ok := t.Underlying().(*types.Struct)
+		if !ok || d > 3 {
+			return false
+		}
+		for i := 0; i < st.NumFields(); i++ {
+			f := st.Field(i)
+			if f.Name() == "hash" && idCache[strings.TrimPrefix(typeStr(t), "*")] {
+				if _, isPtr := f.Type().(*types.Pointer); isPtr {
+					return true
+				}
+			}
+			if f.Embedded() && hasCache(f.Type(), d+1) {
+				return true
+			}
+		}
+		return false
+	}
+	n := 0
+	for _, p := range c.W.Pkgs {
+		rel := relPkg(p.PkgPath)
+		if !strings.HasPrefix(rel, "ledger") {
+			continue
+		}
+		for _, fn := range c.pkgFuncs(rel) {
+			if fn.Parent() != nil || fn.Name() != "UnmarshalCBOR" || fn.Signature.Recv() == nil || len(fn.Params) == 0 || len(fn.Blocks) == 0 {
+				continue
+			}
+			pt, isPtr := fn.Signature.Recv().Type().(*types.Pointer)
+			if !isPtr || !hasCache(pt.Elem(), 0) {
+				continue
+			}
+			n++
+			key := ssaFuncKey(fn)
+			recv := fn.Params[0]
+			isRecv := func(v ssa.Value) bool {
+				for d := 0; d < 4; d++ {
+					switch x := v.(type) {
+					case *ssa.ChangeType:
+						v = x.X
+						continue
+					case *ssa.UnOp:
+						if al, ok := x.X.(*ssa.Alloc); ok && singleStore(al) == ssa.Value(recv) {
+							return true
+						}
+					}
+					break
+				}
+				return v == ssa.Value(recv)
+			}
+			// blocks that reset the cache: a store of a whole struct through the receiver, a store of nil into the hash
+			// field, or a delegated decode of an embedded part that itself resets (not followed here)
+			reset := map[*ssa.BasicBlock]bool{}
+			for _, g := range withAnon(fn) {
+				if g != fn {
+					continue
+				}
+				for _, in := range fnInstrs(g) {
+					st, ok := in.(*ssa.Store)
+					if !ok {
+						continue
+					}
+					if isRecv(st.Addr) {
+						reset[st.Block()] = true
+						continue
+					}
+					// h.hash = nil, or h.<embedded>.hash = nil / h.<embedded> = …
+					addr := st.Addr
+					path := []string{}
+					for {
+						fa, ok := addr.(*ssa.FieldAddr)
+						if !ok {
+							break
+						}
+						path = append(path, fieldName(fa.X.Type(), fa.Field))
+						addr = fa.X
+					}
+					if len(path) > 0 && isRecv(addr) {
+						if path[0] == "hash" && isNilConst(st.Val) {
+							reset[st.Block()] = true
+						} else if ft := st.Val.Type(); path[0] != "hash" && hasCache(ft, 0) {
+							reset[st.Block()] = true // the embedded struct holding the cache is assigned whole
+						}
+					}
+				}
+			}
+			// every success return is reached only through a reset
+			bad := ""
+			seen := map[*ssa.BasicBlock]bool{}
+			var walk func(b *ssa.BasicBlock)
+			walk = func(b *ssa.BasicBlock) {
+				if seen[b] || reset[b] {
+					return
+				}
+				seen[b] = true
+				for _, s := range b.Succs {
+					walk(s)
+				}
+			}
+			walk(fn.Blocks[0])
+			for _, r := range successReturns(fn) {
+				if seen[r.Block()] {
+					bad = c.pos(r.Pos())
+				}
+			}
+			c.Check(bad == "", "hash-cache-reset", key, fn.Pos(), "a successful decode replaces the whole value or clears the cached hash", "a successful decode (return at "+bad+") neither assigns the whole receiver nor clears the cached hash: decoding new bytes into a value whose Hash() was already taken leaves Hash() answering for the old bytes while Cbor() returns the new ones")
+		}
+	}
+	c.Floor("hash-cache-reset", n)
 }
 
 func isSetCbor(cn string) bool {
